@@ -85,6 +85,23 @@ func checkC02With(p *cparsers.ExpressionParser, c c02Case) *evid.Fail {
 		}
 		return fmt.Sprintf("after[%s]at[%s]", at(failAt-1), at(failAt))
 	}
+	// submitting the very same input again to the same parser must give the same verdict and program
+	var err2 error
+	first := actualRPN(p.ResultTokens())
+	if g := guard(func() {
+		if c.ViaToken {
+			err2 = p.ParseTokens(libTokens(c.Toks))
+		} else {
+			err2 = p.ParseString(" " + src + " ")
+		}
+	}); g != nil {
+		g.Sig = "resubmission:" + g.Sig
+		g.Msg = fmt.Sprintf("input %q submitted twice: %s", src, g.Msg)
+		return g
+	}
+	if (err == nil) != (err2 == nil) || (err == nil && strings.Join(first, " ") != strings.Join(actualRPN(p.ResultTokens()), " ")) {
+		return evid.F("resubmission-differs", "input %q: first submission gives %v %v, the second on the same parser gives %v %v", src, err, first, err2, actualRPN(p.ResultTokens()))
+	}
 	if tree == nil {
 		if err == nil {
 			return evid.F("accepts-invalid:"+ctx(), "input %q is not a sentence of the grammar (first bad token #%d) but was accepted and compiled to %v",
